@@ -395,7 +395,18 @@ func runC11E2E(t *testing.T, s C11Scenario) (res Result) {
 			res.failf("HARNESS: %v", err)
 			return
 		}
-		time.Sleep(3 * time.Second) // let the mesh form (heartbeats, virtual time)
+		// let subscriptions propagate and the mesh form (heartbeats, virtual time)
+		for i := 0; i < 300; i++ {
+			if len(topicA.ListPeers()) >= 1 && len(psB.ListPeers(topicID)) >= 1 && len(topicC.ListPeers()) >= 1 {
+				break
+			}
+			time.Sleep(100 * time.Millisecond)
+		}
+		if len(topicA.ListPeers()) < 1 || len(psB.ListPeers(topicID)) < 1 || len(topicC.ListPeers()) < 1 {
+			res.failf("HARNESS: gossipsub topic peers did not show up")
+			return
+		}
+		time.Sleep(3 * time.Second)
 
 		var gotB []*vh.Header
 		var gotC [][]byte
